@@ -410,7 +410,13 @@ impl<R: Read> Reader<R> {
     pub fn finish(mut self) -> io::Result<R> {
         let remaining = self.file_size - self.bytes_read;
         if remaining > 0 {
-            io::copy(&mut self.inner.by_ref().take(remaining), &mut io::sink())?;
+            let skipped = io::copy(&mut self.inner.by_ref().take(remaining), &mut io::sink())?;
+            if skipped < remaining {
+                return Err(io::Error::new(
+                    io::ErrorKind::UnexpectedEof,
+                    "Archive ended inside the data of an entry",
+                ));
+            }
         }
         if let Some(mut padding) = pad(self.file_size as usize) {
             self.inner.read_exact(&mut padding)?;
